@@ -42,14 +42,14 @@ const (
 // (transaction timeout 30 s + network buffer 1 s + a cool-down >= 0). The
 // statement says nothing about expiry, so from this age on forgetting is
 // accepted and before it is not.
-const minStateLifetime = 31
+const minStateLifetime = 31_000 // milliseconds
 
 type event struct {
 	Seq     string
 	IDEq    bool // transaction id == sequence id
 	NewCall bool // first response of a logical call (generator's intent)
 	InCond  bool
-	Now     int64 // seconds on the virtual clock (policy mode)
+	Now     int64 // milliseconds on the virtual clock (policy mode)
 }
 
 type intset map[int]bool
